@@ -71,6 +71,17 @@ def ops_for(room_bits, room_refs, seed=0):
             return [1] * n
         if form == 'bitarray':
             return bitarray('1' * n)
+        if form == 'tuple':
+            return (1,) * n
+        if form == 'str_sep':
+            # bitarray's text form: white space and '_' between the digits are separators, not bits
+            return ' '.join(['1_1' if i % 2 else '11' for i in range(n // 2)] + (['1'] if n % 2 else [])) + ' '
+        if form == 'iter':
+            return iter([1] * n)
+        if form == 'gen':
+            return (1 for _ in range(n))
+        if form == 'range01':
+            return map(int, '1' * n)
         parts = []
         left = n
         while left > 0 or not parts:
@@ -84,7 +95,7 @@ def ops_for(room_bits, room_refs, seed=0):
             acc = acc + t
         return acc
     for n in sizes + [2046]:
-        for form in ('str', 'list', 'bitarray', 'tvm'):
+        for form in ('str', 'list', 'bitarray', 'tvm', 'tuple', 'str_sep', 'iter', 'gen', 'range01'):
             if form == 'str' and n <= 1023:
                 out.append((f'store_bits:{n}', n, 0, lambda b, n=n: b.store_bits('1' * n)))
             else:
@@ -100,6 +111,18 @@ def ops_for(room_bits, room_refs, seed=0):
             out.append((f'store_bytes:{k}', 8 * k, 0, lambda b, k=k: b.store_bytes(b'\xa5' * k)))
             if k <= 127:
                 out.append((f'store_string:{k}', 8 * k, 0, lambda b, k=k: b.store_string('s' * k)))
+            # the same k bytes as other bytes-like objects (items wider than one byte: the length in items is not the length in bytes)
+            import array
+            out.append((f'store_bytes[bytearray]:{k}', 8 * k, 0, lambda b, k=k: b.store_bytes(bytearray(b'\xa5' * k))))
+            out.append((f'store_bytes[memoryview]:{k}', 8 * k, 0, lambda b, k=k: b.store_bytes(memoryview(b'\xa5' * k))))
+            if k % 4 == 0:
+                out.append((f'store_bytes[array-I]:{k}', 8 * k, 0, lambda b, k=k: b.store_bytes(array.array('I', [0xa5a5a5a5] * (k // 4)))))
+            if k % 8 == 0:
+                out.append((f'store_bytes[memoryview-Q]:{k}', 8 * k, 0, lambda b, k=k: b.store_bytes(memoryview(b'\xa5' * k).cast('Q'))))
+    for k in (128, 256, 512):   # wide-item buffers whose ITEM count would fit
+        import array
+        out.append((f'store_bytes[array-I]:{k}', 8 * k, 0, lambda b, k=k: b.store_bytes(array.array('I', [0xa5a5a5a5] * (k // 4)))))
+        out.append((f'store_bytes[memoryview-Q]:{k}', 8 * k, 0, lambda b, k=k: b.store_bytes(memoryview(b'\xa5' * k).cast('Q'))))
     # var ints: length field lb, value with byte length L
     for lb in (3, 4, 5):
         Ls = {0, 1, (1 << lb) - 1}
